@@ -4,6 +4,8 @@ Differential oracle (DESIGN.md C01): tflinterp(source network, x) versus outrun(
 operator is executed by npusim over the bytes of the file.  Exact comparison for exact-class networks, |d| <= 1 for
 networks that end in an approximate-class operator.
 """
+import math
+
 import numpy as np
 
 from runner import Part, Violation, sub_seed, run_hypothesis, HarnessError, jhash
@@ -102,6 +104,40 @@ def output_tolerances(spec):
     return [cls.get(t, 0) for t in spec["outputs"]]
 
 
+TOL_CAP = 40  # a propagated bound beyond this many steps says too little to be worth asserting
+
+
+def dynamic_tolerances(spec, tables):
+    """like output_tolerances, but a deviation that enters an 8-bit table-driven operator is bounded instead of given up: the operator is its table, so an input off by at most t
+    steps moves the result by at most L(t) = max |T[x+d] - T[x]| over all codes x and |d| <= t, plus the operator's own step.  `tables` = reference tables by output tensor index."""
+    cls = {}
+    for o in spec["ops"]:
+        ins = [cls.get(i, 0) for i in o["inputs"] if i is not None and i >= 0]
+        worst = None if any(c is None for c in ins) else max(ins + [0])
+        tab = tables.get(o["outputs"][0]) if len(o["outputs"]) == 1 else None
+        if worst is not None and worst > 0 and tab is not None:
+            t = np.asarray(tab, np.int64)
+            lip = max(int(np.abs(t[d:] - t[:-d]).max()) for d in range(1, min(worst, 255) + 1))
+            out = lip + 1
+        elif o["code"] == "SOFTMAX" and worst is not None and worst > 0 and spec["tensors"][o["inputs"][0]]["dtype"] in ("int8", "uint8"):
+            # mean value theorem: sum_j |d p_i / d x_j| = 2 p_i (1 - p_i) <= 1/2 per unit of the real input, i.e. beta * s_in per input step; output steps are 1/256
+            beta = float((o.get("opts") or {}).get("fields", {}).get("Beta", 1.0))
+            s_in = spec["tensors"][o["inputs"][0]]["scale"]
+            s_in = float(s_in[0] if isinstance(s_in, (list, tuple)) else s_in)
+            out = int(math.ceil(128.0 * abs(beta) * s_in * worst)) + 2
+        elif _approx_op(o):
+            out = 1 if worst == 0 else None
+        elif o["code"] in SELECTING_CODES:
+            out = worst
+        else:
+            out = 0 if worst == 0 else None
+        if out is not None and out > TOL_CAP:
+            out = None
+        for t in o["outputs"]:
+            cls[t] = out
+    return [cls.get(t, 0) for t in spec["outputs"]]
+
+
 def reference(src, xs):
     """-> list of admissible reference output lists (one per MUL derivation that changes anything)"""
     sg = src["subgraphs"][0]
@@ -110,6 +146,7 @@ def reference(src, xs):
     v = it.run(dict(zip(sg["inputs"], xs)))
     outs.append((0, [v[i] for i in sg["outputs"]]))
     reference.loose = it.loose
+    reference.tables = it.tables
     reference.masks = [it.undef.get(i) for i in sg["outputs"]]  # elements for which the reference defines no value (the same for every mode)
     if it.ambiguous:
         bits = it.ambiguous_bits
@@ -166,13 +203,22 @@ def oracle(case, rec=None):
         return
     src = vmodel.load(fbwrite.build(spec))
     tols = output_tolerances(spec)
+    input_sets = make_inputs(src, case.get("input_seed", 0))
+    if any(t is None for t in tols):
+        # chains of table-driven activations: bound the amplification through the reference tables (needs one reference evaluation)
+        try:
+            reference(src, input_sets[0])
+            dyn = dynamic_tolerances(spec, reference.tables)
+            tols = [d if t is None else t for t, d in zip(tols, dyn)]
+        except tflinterp.Unsupported:
+            pass
     if all(t is None for t in tols):
         if rec is not None:
             rec.cls("compiled", "inconclusive", "inconclusive: every output lies behind an arithmetic consumer of an approximate-class result")
         return
     tol = max(t for t in tols if t is not None)
     if rec is not None:
-        rec.cls("compiled", "tolerance-%d" % tol)
+        rec.cls("compiled", "tolerance-%d" % tol if tol <= 1 else "tolerance-propagated(2..%d)" % TOL_CAP)
         if any(t is None for t in tols):
             rec.cls("some-outputs-not-asserted(amplified approximation)")
     if not art.npu_ops:
@@ -182,7 +228,7 @@ def oracle(case, rec=None):
     decided = 0
     approx_ops = [o["code"] for o in spec["ops"] if o["code"] in APPROX_CODES]
     last_code = approx_ops[-1] if approx_ops else spec["ops"][-1]["code"]
-    for k, xs in enumerate(make_inputs(src, case.get("input_seed", 0))):
+    for k, xs in enumerate(input_sets):
         try:
             refs = reference(src, xs)
         except tflinterp.Unsupported as e:
@@ -252,6 +298,8 @@ def strategy(profile, quick):
         base = e2e.case_strategy("elementwise", max_ops=3, big=False, dtypes=("int8", "int8", "uint8"))
     elif profile == "slices":
         base = e2e.case_strategy("slices", max_ops=5, big=False, dtypes=("int8", "int8", "uint8"))
+    elif profile == "lutmix":
+        base = e2e.case_strategy("lutmix8", max_ops=8, big=False, dtypes=("int8", "int8", "uint8"))
     else:
         base = e2e.case_strategy("exact", max_ops=6, big=not quick, dtypes=("int8", "int8", "uint8"))
     return st.builds(lambda c, s: dict(c, kind="c01", input_seed=s), base, st.integers(0, 1 << 30))
@@ -274,6 +322,7 @@ def parts(ctx):
     ps += [Part("convs%02d" % i, part, ("convs", i, 25 if q else 700)) for i in range(4)]
     ps += [Part("int16-%02d" % i, part, ("exact16", i, 20 if q else 600)) for i in range(4)]
     ps += [Part("approx%02d" % i, part, ("approx", i, 20 if q else 600)) for i in range(4)]
+    ps += [Part("lutmix%02d" % i, part, ("lutmix", i, 14 if q else 400)) for i in range(2)]
     return ps
 
 
